@@ -209,7 +209,7 @@ func zzC13OpenChanDB(ex *zzC13Exec, w *zzWorld, fromTemplate bool) *zzC13ChanDB 
 
 // zzC13DBView is what the channel database says about the channel.
 type zzC13DBView struct {
-	open    *chanstate.OpenChannel        // loadOpenChannels would start an active arbitrator
+	open    *chanstate.OpenChannel         // loadOpenChannels would start an active arbitrator
 	pending *channeldb.ChannelCloseSummary // loadPendingCloseChannels would start a pending-close one
 	closed  *channeldb.ChannelCloseSummary // the close summary, pending or not
 }
